@@ -219,6 +219,8 @@ struct FnDirective {
     trusted: bool, // emit signature + clauses with external_body (assumed contract, listed)
     nocanary: bool,
     noisolation: bool,
+    guards: Vec<String>,
+    mutparams: Vec<String>,
 }
 
 struct Hint {
@@ -473,10 +475,16 @@ fn main() {
                         fl.vis = parse_quote!(pub);
                     }
                     s.vis = parse_quote!(pub);
+                    if let Some((_, to)) = fmaps.iter().find(|(f, _)| *f == s.ident.to_string()) {
+                        s.ident = Ident::new(to, s.ident.span());
+                    }
                     rw.fix_generics(&mut s.generics);
                 }
                 Item::Enum(s) => {
                     s.vis = parse_quote!(pub);
+                    if let Some((_, to)) = fmaps.iter().find(|(f, _)| *f == s.ident.to_string()) {
+                        s.ident = Ident::new(to, s.ident.span());
+                    }
                     derives_clone = has_derive(&s.attrs, "Clone");
                     s.attrs.clear();
                     for v in s.variants.iter_mut() {
@@ -590,6 +598,8 @@ fn main() {
                 trusted: opts.contains_key("trusted"),
                 nocanary: opts.contains_key("nocanary"),
                 noisolation: opts.contains_key("noisolation"),
+                guards: opts.get("guards").map(|s| s.split_whitespace().map(|x| x.to_string()).collect()).unwrap_or_default(),
+                mutparams: opts.get("mutparams").map(|s| s.split_whitespace().map(|x| x.to_string()).collect()).unwrap_or_default(),
                 ..Default::default()
             };
             i += 1;
@@ -779,6 +789,7 @@ fn emit_fn(
 
     let mut rw = Rw::new(maps, method_maps);
     rw.noop_methods = noop.clone();
+    rw.guards = d.guards.iter().cloned().collect();
     let mut impl_header = String::new();
     let mut moved_generics: Vec<GenericParam> = Vec::new();
     let mut all_preds: Vec<WherePredicate> = Vec::new();
@@ -858,6 +869,11 @@ fn emit_fn(
             FnArg::Typed(pt) => {
                 rw.visit_type_mut(&mut pt.ty);
                 match &mut *pt.pat {
+                    Pat::Ident(pi) if d.mutparams.contains(&pi.ident.to_string()) && pi.mutability.is_none() => {
+                        let id = pi.ident.clone();
+                        prologue.push(parse_quote!(let mut #id = #id;));
+                        rw.log.push("R17 parameter rebound mutable (ghost-stateful shim)".into());
+                    }
                     Pat::Ident(pi) => {
                         if pi.mutability.is_some() && is_async {
                             // R17
@@ -963,6 +979,23 @@ fn emit_fn(
     }
     body.pop();
 
+    // R27: lock-guard scope markers -> ghost monitor
+    for g in &d.guards {
+        body.insert(0, format!("    let ghost mut vx_guard_{g}: bool = false; /*vxguard*/"));
+    }
+    for l in body.iter_mut() {
+        let t = l.trim().to_string();
+        if let Some(r) = t.strip_prefix("vx_guard_acquired!(") {
+            let g = r.trim_end_matches(");");
+            *l = format!("proof {{ vx_guard_{g} = true; }} /*vxguard*/");
+        } else if let Some(r) = t.strip_prefix("vx_guard_released!(") {
+            let g = r.trim_end_matches(");");
+            *l = format!("proof {{ vx_guard_{g} = false; }} /*vxguard*/");
+        } else if let Some(r) = t.strip_prefix("vx_await_check!(") {
+            let g = r.trim_end_matches(");");
+            *l = format!("assert(!vx_guard_{g}); // [C17.no_wait_while_holding_{g}] /*vxguard*/");
+        }
+    }
     // loop clauses
     let nloops = rw.loop_counter;
     for (n, _) in &d.loops {
